@@ -313,6 +313,32 @@ def run(ctx):
                     ctx.prop_fail("cancel: id %s reported cancelled %d time(s), issued=%s" % (x, ic.count(x), x in issued_ids), case)
                 break
         distinct.add("|".join(evs))
+    # ---- PROP: a host that answers ahead of time (an id the NEXT order will get, the quantifier's "unknown ids"): every order the program
+    # issues must still be handed to the host exactly once.  The programs issue their orders unconditionally, whatever the answers are.
+    pre = []
+    for i in range(40 if ctx.tier == "quick" else 600):
+        k = rng.randint(2, 6)
+        body = []
+        for j in range(1, k + 1):
+            form = rng.randrange(3)
+            if form == 0:
+                body.append("console.log('I'); try { const r%d = await order({k: %d, tag: 'payload-%d', list: [%d, 'x']}); out.push('R%d:' + typeof r%d); } catch (e) { out.push('R%d:caught'); }" % (j, j, j, j, j, j, j))
+            elif form == 1:
+                body.append("console.log('I'); try { const r%d = order({k: %d, tag: 'payload-%d', list: [%d, 'x']}); out.push('R%d:' + typeof r%d); } catch (e) { out.push('R%d:caught'); }" % (j, j, j, j, j, j, j))
+            else:
+                body.append("console.log('I'); let q%d; try { q%d = order({k: %d, tag: 'payload-%d', list: [%d, 'x']}); } catch (e) { q%d = 0; } try { out.push('Q%d:' + typeof (await q%d)); } catch (e) { out.push('Q%d:caught'); }" % (j, j, j, j, j, j, j, j, j))
+        body.append("out.join(';')")
+        pre.append({"script": HEAD + "\n".join(body), "resp": [rng.choice(["v", "v", "o", "e"]) for _ in range(k)], "settle": [], "spurious": 0, "junk": False, "gc": False, "n": k})
+    pg = common.harness(["orders"], [json.dumps(dict(c, preanswer=False)) for c in pre] + [json.dumps(dict(c, preanswer=True)) for c in pre], timeout=600)
+    for c, a, b in zip(pre, pg[:len(pre)], pg[len(pre):]):
+        ctx.cov["evaluations"] += 2
+        ids_a = sorted(int(e.split(":")[1]) for e in a.split("|") if e.startswith("P:"))
+        ids_b = sorted(int(e.split(":")[1]) for e in b.split("|") if e.startswith("P:"))
+        if ids_a != list(range(1, c["n"] + 1)):
+            ctx.corr_fail("the pre-answer scripts do not issue their orders unconditionally (generator)", {"script": c["script"][:800]}, list(range(1, c["n"] + 1)), ids_a)
+        elif ids_b != ids_a:
+            ctx.prop_fail("once: with a host that answers the next id ahead of time, the orders handed to the host are %s instead of %s (an issued order was never reported, or reported twice)" % (ids_b, ids_a),
+                          {"script": c["script"][:1500], "resp": c["resp"], "trace_plain_host": a[:600], "trace_answering_ahead": b[:600]})
     ctx.cov["distinct_nontrivial"] = len(distinct)
     ctx.cov["rule"] = ("generated straight-line scripts with 1..6 orders (awaited or not), __getOrderId__, __cancelOrder__ of issued/unissued/answered ids, awaits of host promises, "
                        "Promise.all/race/allSettled over host promises; host policies: value / error / object / plain promise / order-linked promise responses, settle order and "
